@@ -1,8 +1,31 @@
 from vlib.runner import Ob
 
+# loop bounds: 113 hash heads (vbi_cache_new, vbi_cache_delete, audit), 8 nibbles (BCD helpers), 6 permutations x 3
+# (builder), 8 marker bytes (memcpy model); every list walk of cache.c / the audit: <= C10_NP + 2 = 5 iterations
 US = {"vbi_cache_new.0": 114, "vbi_cache_delete.2": 114, "audit.8": 114, "ref_is_bcd.0": 9, "ref_digit_gt.0": 9,
-      "link_list.0": 7, "link_list.1": 7}
+      "link_list.0": 7, "link_list.1": 7, "memcpy.0": 9}
+# the 113 list heads of vbi_cache.hash[] must be separate fields for CBMC's points-to sets (see harness header)
 MF = ["--max-field-sensitivity-array-size", "113"]
+
+ALPHA = "page numbers {0x151, 0x233 (BCD), 0x1C2 (hex)}, all in hash bucket 111"
+STUBS = ["models/c10_env.h + harness allocator model: vbi_malloc/vbi_free (macros for malloc/free in 0.2 builds) -> slot pool: 1 cache, C10_NN networks, "
+         "C10_NP pages, separate objects, every page allocation must have the size class of the run (1564 = LOP); allocation never fails, exhausting the "
+         "pool ends the path; freeing a pointer that is not a live slot fails VP:free_of_live_object; natively: real calloc/free of the exact size (ASan)",
+         "page objects under CBMC = cache_page header (88 bytes, same layout, checked by a static assertion) + 8 body bytes; memcpy model (CBMC only): "
+         "records (dst, src, n) of the single page-body copy in _vbi_cache_put_page and copies 8 bytes; the harness asserts dst/src/n against the allocation",
+         "memset model (CBMC only): CLEAR(*cn)/CLEAR(*ca) as typed zero assignments, any other memset fails",
+         "_vbi_log_printf/_vbi_log_vprintf/_vbi_vasprintf empty (log hooks off); _vbi_global_log zero"]
+ASSUMES = ["constructed pre-state: <= 3 pages, <= 2 networks, built by the harness through the allocator model on top of the real vbi_cache_new(); per page slot "
+           "the page number (alphabet index) and the reference class (unreferenced / referenced) are grid-concrete, everything else symbolic: network, subpage "
+           "number (any the cache stores: BCD 0..0x79 or clock 0x0100..0x2359; hex pages any S4..S1), function within the size class, reference count 1..2, "
+           "zombie flag, priority, content markers, national/flags, network reference counts 0..2 and zombie flags, decoder statistics, high-water marks, and "
+           "the order of every list (symbolic permutations); the pre-state satisfies the audit (asserted, VP:pre_audit, not assumed)",
+           "memory_limit = 1 GB as vbi_cache_new sets it (0.2 builds never change it: vbi_cache_set_memory_limit is not compiled)"]
+AUDIT = ("audit = representation invariant on the real memory: every list is a consistent ring of live objects; every non-zombie page is on exactly the chain "
+         "of hash(pgno) once, a zombie page on none; on `priority` iff ref_count == 0 else on `referenced`; zombie => referenced; the other 112 heads empty; "
+         "ca->n_cached_pages == #live pages; memory_used == sum of sizes of unreferenced pages <= memory_limit; allocation size == cache_page_size(); "
+         "cn->n_cached_pages / n_referenced_pages / ps->n_subpages exact, high-water marks >= ; stored keys in the documented domain; n_cached_networks == "
+         "#non-zombie networks; a zombie network is held by a reference or a referenced page; statistics of neighbouring page numbers untouched")
 
 
 def cfg(s, r, p=None, **kw):
@@ -13,25 +36,97 @@ def cfg(s, r, p=None, **kw):
         d["C10_R%d" % i] = v
     if p is not None:
         d["C10_P"] = p
-    d.setdefault("C10_NP", len(s))
+    d.setdefault("C10_NP", max(len(s), 1))
     d.update(kw)
     return d
 
 
 def obligations(tier, seed):
-    common = dict(harness="h_c10.c", unwind=5, unwindset=US, vin_size=256, flags=MF,
-                  stubs=["models/c10_env.h: vbi_malloc/vbi_free -> slot pool (1 cache, C10_NN networks, C10_NP pages; separate objects; "
-                         "allocation never fails; exceeding the pool ends the path); free of a non-live pointer is an assertion failure",
-                         "_vbi_log_printf/_vbi_log_vprintf/_vbi_vasprintf empty (log hooks are off)"])
+    common = dict(harness="h_c10.c", unwind=5, unwindset=US, vin_size=256, flags=MF, stubs=STUBS)
+    inv = dict(assumes=ASSUMES, **common)
+    get_q = [cfg((0, 0, 1), (0, 0, 0), 0), cfg((0, 0, 1), (0, 1, 0), 0), cfg((2, 2, 0), (0, 1, 1), 2)]
+    get_t = get_q + [cfg((0, 0, 1), (1, 1, 1), 0), cfg((0, 0, 0), (0, 1, 0), 0), cfg((0, 1, 2), (1, 0, 1), 1), cfg((2, 2, 2), (0, 0, 1), 2),
+                     cfg((0, 1, 2), (0, 0, 0), 3), cfg((0, 0), (0, 1), 0), cfg((0,), (0,), 0)]
+    ref_q = [cfg((0, 0, 1), (0, 1, 0), C10_SLOT=0), cfg((0, 0, 1), (0, 1, 0), C10_SLOT=1)]
+    ref_t = ref_q + [cfg((0, 2, 1), (1, 1, 0), C10_SLOT=2), cfg((0,), (0,), C10_SLOT=0), cfg((2, 2), (1, 0), C10_SLOT=0)]
+    nz = dict(C10_Z0=0, C10_Z1=0)
+    unref_q = [cfg((0, 0, 1), (0, 1, 0), C10_SLOT=1, C10_PZ1=0, C10_RC1=1, **nz), cfg((0, 0, 1), (0, 1, 0), C10_SLOT=1, C10_PZ1=0, C10_RC1=2, **nz),
+               cfg((0, 0, 1), (0, 1, 1), C10_SLOT=1, C10_PZ1=1, C10_RC1=1, **nz), cfg((0, 0, 1), (0, 1, 0), C10_SLOT=0)]
+    unref_t = unref_q + [cfg((2, 0, 2), (1, 1, 1), C10_SLOT=0, C10_PZ0=0, C10_RC0=1, **nz), cfg((0,), (1,), C10_SLOT=0, C10_PZ0=1, C10_RC0=1, **nz),
+                         cfg((1, 1, 0), (1, 1, 0), C10_SLOT=1, C10_PZ1=1, C10_RC1=2, **nz), cfg((2, 2, 2), (1, 1, 1), C10_SLOT=2, C10_PZ2=1, C10_RC2=1, **nz)]
+    seq_pp = dict(C10_K=2, C10_NP=3, C10_NN=1, C10_NB=0, C10_NNB=0)
     return [
-        Ob("cache_new", func="h_new", desc="vbi_cache_new establishes the invariant with the documented defaults; vbi_cache_delete frees it",
-           encodes=["vbi_cache_new", "vbi_cache_delete", "vbi_cache_purge"], bounds="none", timeout=120, **common),
-        Ob("get_page", func="h_get", desc="get", encodes=["_vbi_cache_get_page", "page_by_pgno", "cache_page_ref"],
-           grid=[cfg((0, 0, 1), (0, 0, 0), 0), cfg((0, 0, 1), (1, 1, 1), 0), cfg((0, 0, 1), (0, 1, 0), 0)], reach=["end", "hit", "miss"], timeout=400, **common),
-        Ob("put_page", func="h_put", desc="put", encodes=["_vbi_cache_put_page"],
-           grid=[cfg((0, 0), (0, 0), 0, C10_NP=3), cfg((0, 0), (1, 1), 0, C10_NP=3), cfg((0, 1), (0, 1), 0, C10_NP=3)], reach=["end", "put_new"], timeout=400, **common),
-        Ob("page_ref", func="h_ref", desc="ref", encodes=["cache_page_ref"],
-           grid=[cfg((0, 0, 1), (0, 1, 0), C10_SLOT=0), cfg((0, 0, 1), (0, 1, 0), C10_SLOT=1)], reach=["end"], timeout=400, **common),
-        Ob("page_unref", func="h_unref", desc="unref", encodes=["cache_page_unref"],
-           grid=[cfg((0, 0, 1), (0, 1, 0), C10_SLOT=0), cfg((0, 0, 1), (0, 1, 0), C10_SLOT=1)], reach=["end"], timeout=400, **common),
+        Ob("cache_new", func="h_new",
+           desc="INIT |= invariant: the real vbi_cache_new() yields a cache that passes the audit with the documented defaults (no page, no network, memory "
+                "limit 1 GB, network limit 1, ref_count 1); vbi_cache_delete() of it frees exactly that allocation. " + AUDIT,
+           encodes=["vbi_cache_new", "vbi_cache_delete", "vbi_cache_purge", "list_init", "list_destroy"], bounds="none (concrete)", timeout=120, **common),
+        Ob("get_page", func="h_get",
+           desc="INV-STEP _vbi_cache_get_page(ca, cn, pgno, subno, mask) with cn any live network, pgno grid-concrete (alphabet or the invalid numbers 0x1FF/0x0FF/"
+                "0x900), subno and mask arbitrary 32-bit: returns the FIRST page on the bucket's chain (= most recently stored or looked up) of that network "
+                "whose key matches under the mask (VBI_ANY_SUBNO = wildcard), NULL iff none (and then nothing changes at all); the hit gets one more reference, "
+                "keeps key and content, becomes chain head with the others' order preserved; on the first reference it moves from `priority` to the tail of "
+                "`referenced`, memory_used drops by its size, n_referenced_pages+1, a zombie network is revived; nothing else changes; audit holds after. "
+                "CACHE_CONSISTENCY asserts of cache.c are proof obligations",
+           encodes=["_vbi_cache_get_page", "page_by_pgno", "cache_page_ref", "cache_page_size", "is_member", "unlink_node", "add_head", "add_tail"],
+           bounds="one operation; pre-state <= 3 pages / 2 networks; " + ALPHA + "; grid = (page number, reference class) per slot x operation page number",
+           outside="more than 3 pages on a chain; other buckets (the harness asserts they stay empty)",
+           grid=get_t, quick_grid=get_q, reach=["end", "hit", "miss"], timeout=600, mem_gb=5, **inv),
+        Ob("page_ref", func="h_ref",
+           desc="INV-STEP cache_page_ref(cp), cp any live page (grid slot): returns cp, ref_count+1, key/content intact; first reference moves it to the tail "
+                "of `referenced`, memory accounting and n_referenced_pages exact, zombie network revived; every other page, list order, network untouched; audit after",
+           encodes=["cache_page_ref", "cache_page_size"], bounds="one operation; pre-state <= 3 pages / 2 networks; " + ALPHA,
+           grid=ref_t, quick_grid=ref_q, reach=["end"], timeout=400, **inv),
+        Ob("page_unref", func="h_unref",
+           desc="INV-STEP cache_page_unref(cp), cp a live page (grid slot): ref_count 0 -> no-op (warning); 2 -> decrement only (also of a zombie page: it "
+                "stays intact); last reference of a cached page -> tail of `priority`, memory_used += size, n_referenced_pages-1, page intact and still "
+                "cached; last reference of a ZOMBIE page (superseded or dropped while held) -> exactly that allocation is freed, it leaves `referenced`, "
+                "n_cached_pages / n_referenced_pages / page statistics are decremented; every other page/list/network untouched; audit after.  Reference "
+                "count, zombie flag and priority of the released page and the networks' zombie flags (0) are grid-concrete, see `outside`",
+           encodes=["cache_page_unref", "delete_page", "page_in_cache", "cache_network_remove_page", "cache_page_size"],
+           bounds="one operation; pre-state <= 3 pages / 2 non-zombie networks; zombie flag and priority of the released page grid-concrete; " + ALPHA,
+           outside="the last reference into a ZOMBIE network (delete_network -> delete_all_pages walks ca->priority while deleting) and "
+                   "delete_surplus_pages(): symex follows the walk with a phantom list-head candidate and does not finish (> 400 s, see report); executed "
+                   "only by the native self-test runs",
+           grid=unref_t, quick_grid=unref_q, reach=["end"], timeout=600, mem_gb=5, **inv),
+        Ob("get_network", func="h_get_network",
+           desc="INV-STEP _vbi_cache_get_network(ca, &cn->network) / unknown vbi_network / cache_network_ref: found iff it is one of the cache's networks, "
+                "reference +1 (+2 after cache_network_ref), zombie network revived (n_cached_networks+1), moved to the head of the network list, order of "
+                "the others kept; pages, page lists, memory untouched; unknown network -> NULL, nothing changes; audit after",
+           encodes=["_vbi_cache_get_network", "network_by_id", "cache_network_ref"], bounds="one operation; pre-state <= 3 pages / 2 networks; " + ALPHA,
+           grid=[cfg((0, 0, 1), (0, 1, 0))], reach=["end", "found", "unknown"], timeout=400, **inv),
+        Ob("seq_put_put", func="h_seq",
+           desc="SEQ-2 from the empty cache: real vbi_cache_new, _vbi_cache_add_network(NULL), then two _vbi_cache_put_page (page numbers grid-concrete, "
+                "sub-codes, decoder page type and content marker symbolic), pages stay held: after every operation the audit holds and the cache equals a "
+                "reference map (recency-ordered list of page number / stored subpage number / pointer): the second put supersedes the first exactly when EN 300 706 "
+                "A.1 (as documented in cache.c) says so, a superseded HELD page survives intact as a zombie, stored subpage numbers are the normalised ones; "
+                "put's body copy stays inside both allocations",
+           encodes=["vbi_cache_new", "_vbi_cache_add_network", "add_network", "_vbi_cache_put_page", "page_by_pgno", "cache_network_add_page"],
+           bounds="2 operations; 1 network; " + ALPHA + " (grid: both puts to the same page / to colliding pages)",
+           outside="sequences that release a page before the next put (cache_page_unref with symbolic memory_used explores delete_surplus_pages; put with a "
+                   "non-empty priority list explores the eviction loops: symex does not finish, see report)",
+           grid=[dict(seq_pp, C10_Q0=0, C10_Q1=0), dict(seq_pp, C10_Q0=2, C10_Q1=2), dict(seq_pp, C10_Q0=0, C10_Q1=1)],
+           quick_grid=[dict(seq_pp, C10_Q0=0, C10_Q1=0)], reach=["end"], timeout=900, **common),
+        Ob("seq_put_put_get", func="h_seq",
+           desc="SEQ-3 from the empty cache: two puts as in seq_put_put (pages held), then _vbi_cache_get_page with arbitrary subno and mask on a grid page "
+                "number: the lookup finds a page iff the reference map holds a matching version, returns exactly the most recently stored version under the "
+                "mask (VBI_ANY_SUBNO = wildcard), copy-equal in key and content marker, and makes it the most recent; audit and map equality after every operation",
+           encodes=["vbi_cache_new", "_vbi_cache_add_network", "_vbi_cache_put_page", "_vbi_cache_get_page", "page_by_pgno", "cache_page_ref", "cache_network_add_page"],
+           bounds="3 operations put/put/get (thorough: also put/get/put); 1 network; " + ALPHA,
+           outside="see seq_put_put; channel switch and release sequences are exercised only natively (self-test, LeakSanitizer)",
+           grid=[dict(seq_pp, C10_K=3, C10_Q0=0, C10_Q1=0, C10_Q2=0), dict(seq_pp, C10_K=3, C10_Q0=2, C10_Q1=2, C10_Q2=2), dict(seq_pp, C10_K=3, C10_Q0=0, C10_Q1=1, C10_Q2=0),
+                 dict(seq_pp, C10_K=3, C10_O1="'G'", C10_O2="'P'", C10_Q0=0, C10_Q1=0, C10_Q2=0)],
+           quick_grid=[dict(seq_pp, C10_K=3, C10_Q0=0, C10_Q1=0, C10_Q2=0)], reach=["end", "seq_hit"], timeout=900, mem_gb=5, **common),
+        # ---- findings: the same SEQ-2 harness with ONE more assertion each; expected REFUTED on the current tree (see report / known_findings)
+        Ob("finding_subno_range", func="h_seq",
+           desc="SEQ-2 as seq_put_put plus: the subpage range recorded for a page number (ttx_page_stat.subno_min/subno_max - what vbi_cache_hi_subno returns and "
+                "what _vbi_cache_foreach_page/vbi_search uses to enumerate subpages) covers every cached subpage 0..0x79 of that page.  REFUTED: put(p.0) then "
+                "put(p.1) leaves subno_min = 1 with p.0 cached (cache_network_add_page treats subno_min == 0 as `none yet`)",
+           encodes=["_vbi_cache_put_page", "cache_network_add_page"], bounds="2 operations; " + ALPHA, defines=dict(C10_RANGE=None),
+           grid=[dict(seq_pp, C10_Q0=0, C10_Q1=0)], reach=["end"], timeout=900, **common),
+        Ob("finding_subno_min_gt_max", func="h_seq",
+           desc="SEQ-2 as seq_put_put plus: whenever a page number has cached subpages, subno_min <= subno_max (otherwise _vbi_cache_foreach_page skips the page "
+                "number, and never returns if it is the only one cached).  REFUTED: clock-page sub-codes >= 0x100 are truncated to uint8_t, e.g. put(p.0x1201) "
+                "then put(p.0x0100) gives subno_min = 1, subno_max = 0",
+           encodes=["_vbi_cache_put_page", "cache_network_add_page"], bounds="2 operations; " + ALPHA, defines=dict(C10_MINMAX=None),
+           grid=[dict(seq_pp, C10_Q0=0, C10_Q1=0)], reach=["end"], timeout=900, **common),
     ]
